@@ -522,12 +522,12 @@ def run(ctx):
     import jsonrpclib.threadpool as tpmod
     pool_lines = set(inject.statement_lines(tpmod))
     pts = [{"qualname": q, "line": l, "role": r, "k": k} for (q, l, r) in sorted(inj.seen)
-           if (q, l) in pool_lines and r in ("worker", "serve") for k in (1, 2, 3, 5)]
+           if (q, l) in pool_lines and r in ("worker", "serve") for k in (1, 2, 3)]
     if not pts:
         pts = idle_gap_points()
     mine = [pt for i, pt in enumerate(pts) if ctx.mine(i)]
     rng.shuffle(mine)
-    for pt in mine[:ctx.pick(14, 10 ** 6)]:
+    for pt in mine[:ctx.pick(36, 10 ** 6)]:
         if ctx.time_left() < 60:
             ctx.unsure("time budget exhausted in the idle-gap sweep")
             break
